@@ -238,6 +238,15 @@ def run(ctx):
     s_fm = fsite(ctx, "formulas.formula")
 
     # ---- R1 natural mass ratio per kind, getter/setter inverse ------------------
+    # (first: two materials that carry the same *name* and different isotopes - "water" for D2O and for H2O -, asked one
+    # after the other and again: a ratio is a property of the composition, whatever the formula prints as)
+    kinds_ = [k_ for k_ in w.KINDS][:2]
+    named = [I.call(fm, [{A[k_]: q[0], O: q[1]}], {"density": d, "name": "water"}) for k_ in kinds_]
+    for rep_ in (1, 2):
+        for k_, f_ in zip(kinds_, named):
+            eq(ctx, "R1", f"natural mass ratio of a formula named like another one [{k_}, request {rep_}]",
+               I.call(I.getattr(f_, "natural_mass_ratio"), [], {}),
+               (q[0] * nat_mass(k_) + q[1] * mO) / (q[0] * act_mass(k_) + q[1] * mO), s_ratio)
     for kind in w.KINDS:
         a = A[kind]
         f = I.call(fm, [{a: q[0], O: q[1]}], {"density": d})
@@ -358,6 +367,19 @@ def run(ctx):
         mass1 = mass0 + q[0] * portion * (mass_sym("D") - mass_sym("H1"))
         eq(ctx, "R3", f"replace ({label}): density scales with the mass (cell volume kept)",
            _generic_arm(I.getattr(r, "density"), p), d * mass1 / mass0, s_sub)
+    # the formula asked is left as it was: same atom objects (of the same table), same counts, same density
+    before_atoms = dict(I.getattr(f, "atoms"))
+    T_other = I.instantiate(I.get_class("core.PeriodicTable"), ["other_for_replace"], {}, name="T_other", open_attrs=())
+    call_ = lambda o_, m_, *a_: I.call(I.getattr(o_, m_), list(a_), {})
+    h1_other = call_(I.getattr(T_other, "H"), "add_isotope", sp.Integer(1))
+    d_other = I.getattr(T_other, "D")
+    for src_, tgt_ in ((H1, D), (h1_other, D), (H1, d_other), (h1_other, d_other)):
+        raises(lambda: I.call(I.getattr(f, "replace"), [src_, tgt_], {}))
+        now_atoms = I.getattr(f, "atoms")
+        ctx.check(isinstance(now_atoms, dict) and len(now_atoms) == len(before_atoms) and all(any(k_ is b_ for b_ in before_atoms) for k_ in now_atoms),
+                  "R3", "replace() leaves the formula it is asked of with its own atom objects", "the atoms of the formula were exchanged for other objects "
+                  "(moved to another table)", s_sub)
+        eq(ctx, "R3", "replace() leaves the density of the formula it is asked of", I.getattr(f, "density"), d, s_sub)
     # the same substitution asked for again after the first result was given another density: every request is computed from
     # the formula it is asked of (results are the caller's objects: nothing handed out is handed out, or copied, again)
     r1 = I.call(I.getattr(f, "replace"), [H1, D], {})
